@@ -6,6 +6,7 @@ Local Open Scope Z_scope.
 
 Inductive step :=
 | STxn (t : txn_req) (o : txn_resp) (listing : option (list kv))   (* listing of the history's key space afterwards *)
+| STxnNL (t : txn_req) (o : txn_resp)                              (* no listing: a lower revision is still unresolved, or a burst *)
 | SRange (r : range_req) (o : range_resp).
 
 Inductive c16_case :=
@@ -63,6 +64,9 @@ Fixpoint check_steps (ns : bytes) (st : bstate) (steps : list step) : bool * bst
       let '(st', resp) := shim_txn st t in
       if txn_resp_eqb resp o && opt_eqb (list_eqb kv_eqb) (listing_of_shim st' ns) l
       then check_steps ns st' rest else (false, st')
+  | STxnNL t o :: rest =>
+      let '(st', resp) := shim_txn st t in
+      if txn_resp_eqb resp o then check_steps ns st' rest else (false, st')
   | SRange r o :: rest =>
       if range_resp_eqb (shim_range st r) o then check_steps ns st rest else (false, st)
   end.
@@ -294,6 +298,21 @@ Definition oracle_txn (ns : bytes) (o : ostate) (t : txn_req) (obs : txn_resp) (
       end
   end.
 
+(* a transaction without a listing: responses are compared; the stores are compared by the next listing *)
+Definition oracle_txn_nl (o : ostate) (t : txn_req) (obs : txn_resp) : ostate :=
+  let se := o_e o in
+  let nr := if e_now se <? hdr_of obs then hdr_of obs else e_now se + 1 in
+  let '(se', eresp) := etcd_txn se nr t in
+  let seen := Z.max (o_seen o) (hdr_of obs) in
+  let res := o_reserved o || txn_has_reserved t in
+  match obs, eresp with
+  | TErr, TErr => mkO (e_tick se seen) seen res (o_codes o) false
+  | TOk _ _ _, TOk _ _ _ =>
+      if ptxn_eqb (proj_txn t obs) (proj_txn t eresp) then mkO (e_tick se' seen) seen res (o_codes o) false
+      else mkO (e_tick se' seen) seen res (o_codes o ++ [classify_txn o t obs]) true
+  | _, _ => mkO (e_tick se seen) seen res (o_codes o ++ [0%N]) true
+  end.
+
 Definition prange_eqb (a b : option (list pkv * Z * bool)) : bool :=
   match a, b with
   | Some (k, c, m), Some (k', c', m') => list_eqb pkv_eqb k k' && (c =? c') && Bool.eqb m m'
@@ -336,6 +355,7 @@ Fixpoint oracle_steps (ns : bytes) (o : ostate) (steps : list step) : ostate :=
       if o_stop o then o
       else match s with
            | STxn t obs l => oracle_steps ns (oracle_txn ns o t obs l) rest
+           | STxnNL t obs => oracle_steps ns (oracle_txn_nl o t obs) rest
            | SRange r obs => oracle_steps ns (oracle_range o r obs) rest
            end
   end.
